@@ -75,6 +75,7 @@ def execute(ctx: RunCtx) -> None:
     prior_generate = ds.flag("e2e.prior_generate_with_other_options", 0.2)
     prior_loose = prior_generate and ds.flag("e2e.prior_generate_with_loose_corrector", 0.6)
     prior_same = prior_generate and not prior_loose and ds.flag("e2e.prior_generate_same_options_other_stepper", 0.5)
+    prior_state = prior_generate and not prior_same and ds.flag("e2e.prior_generate_under_other_state_components", 0.4)
     idx = int(getattr(SynodicState, st).value)
     idxs = [int(getattr(SynodicState, c).value) for c in comps]
     state_arg = getattr(SynodicState, st) if len(comps) == 1 else tuple(getattr(SynodicState, c) for c in comps)
@@ -154,6 +155,15 @@ def execute(ctx: RunCtx) -> None:
                 seed.continuation_config = OrbitContinuationConfig(state=state_arg, stepper="secant" if stepper == "natural" else "natural")
                 prior = seed.generate(opts)
                 seed.continuation_config = OrbitContinuationConfig(state=state_arg, stepper=stepper)
+            elif prior_state:
+                # same stepper, other continuation components (the family parameter alone <-> together with the second component)
+                ocomps = (st, SECOND[fam]) if len(comps) == 1 else (st,)
+                oidx = [int(getattr(SynodicState, c).value) for c in ocomps]
+                seed.continuation_config = OrbitContinuationConfig(state=tuple(getattr(SynodicState, c) for c in ocomps) if len(ocomps) > 1 else getattr(SynodicState, st),
+                                                                   stepper=stepper)
+                prior = seed.generate(OrbitContinuationOptions(target=([x_seed[i] - 1000 * mag for i in oidx], [x_seed[i] + 1000 * mag for i in oidx]),
+                                                               step=tuple(-sign * mag * (1.0 if c == st else 0.5) for c in ocomps), max_members=2,
+                                                               max_retries_per_step=0, step_min=1e-10, step_max=1.0, extra_params=extra))
             else:
                 prior = seed.generate(OrbitContinuationOptions(target=([x_seed[i] - 1000 * mag for i in idxs], [x_seed[i] + 1000 * mag for i in idxs]),
                                                                step=tuple(-v for v in steps_l), max_members=2,
@@ -164,7 +174,7 @@ def execute(ctx: RunCtx) -> None:
             prior = (prior, [(o, np.array(o.initial_state, float), o.period) for o in prior.family], int(prior.accepted_count), int(prior.rejected_count))
         except Exception:
             prior = None
-        if prior_same:
+        if prior_same or prior_state:
             seed.continuation_config = OrbitContinuationConfig(state=state_arg, stepper=stepper)
     PeriodicOrbit.correct = correct_with_faults
     try:
@@ -183,7 +193,7 @@ def execute(ctx: RunCtx) -> None:
     fam_objs = list(result.family)
     seq = state["outcomes"]
     log.add("end", len(fam_objs), int(result.accepted_count), int(result.rejected_count), int(result.iterations), seq)
-    cfgd["seed_has_period"], cfgd["prior_generate"] = seed_has_period, ("loose corrector" if prior_loose else ("same options, other stepper" if prior_same else prior_generate))
+    cfgd["seed_has_period"], cfgd["prior_generate"] = seed_has_period, ("loose corrector" if prior_loose else ("same options, other stepper" if prior_same else ("other state components" if prior_state else prior_generate)))
     ctx.sig_parts = [cfgd, seq]
     ctx.nontrivial = bool(ctx.faults) or model.stopped in ("target", "max_members")
     ctx.sample = {"leg": "e2e", "config": cfgd, "outcomes": seq, "family_size": len(fam_objs), "stopped_by": model.stopped}
